@@ -101,6 +101,10 @@ typedef struct of_2d_parity_cb
 	UINT16*		tab_nb_equ_for_repair;
 	
 		void** repair_symbols_values;
+	/* the two entries below must mirror of_linear_binary_code_cb_t (this control block is
+	 * cast to it by the IT and ML decoders) */
+	void		** tmp_tab_symbols;
+	UINT16		nb_tmp_symbols;
 #endif /* } OF_USE_DECODER */
 
 	void 		**encoding_symbols_tab;
